@@ -61,6 +61,12 @@ var c12Actors = []c12Actor{
 		k.lb.wsPool.Stats("b0")
 		k.lb.wsPool.cleanup()
 	}},
+	{"tick-with-b0-ejected", func(k *kit) { // a probe round that starts while a backend's window is running
+		k.lb.MarkBackendUnhealthy(k.backendByName("b0"), 10*time.Second)
+		if tk := k.s.TickerByPeriod(kitProbePeriod); tk != nil {
+			tk.Fire()
+		}
+	}},
 }
 
 type c12Params struct {
@@ -125,7 +131,7 @@ func c12Scenarios() []vh.SScenario {
 	for _, st := range strategies {
 		for a := 0; a < n; a++ {
 			for b := a; b < n; b++ {
-				if a == b && c12Actors[a].name == "probe-tick" {
+				if a == b && (c12Actors[a].name == "probe-tick" || c12Actors[a].name == "tick-with-b0-ejected") {
 					continue // two ticks: 50 000 executions at one preemption; covered by C19's two-tick scenario
 				}
 				out = append(out, c12Scenario(c12Params{st, []int{a, b}}, bound))
